@@ -25,6 +25,15 @@ Index and slice assignment on URL lists (`lst[i] = u`, `lst[a:b:st] = us`, `lst[
 (/repo 41bec34) are judged like every other operation (I vs S, I vs M); only slice assignment on the
 tiers container (`t.trackers[a:b] = …`, open finding D16b) is outside the theorem hypothesis.
 
+Typed values (round 3): every value slot of an operation may hold a value of any Python type / origin
+(`harness/impl/urlvalues.py`: tuple, generator, iterator, set, dict, dict views, deque, a str subclass, a
+`URL` object, a detached `URLs` / `Trackers` object, a list object of ANOTHER torrent, this torrent's own
+webseeds / httpseeds / tier / Trackers object — held or fresh —, `obj + […]`, `obj[a:b]`, nested to any
+depth).  The real code gets the object, the model its STRUCTURE (str | list of structures in iteration
+order; `Torf.Lists.PyV`, `stepV`, `C16_value_type_irrelevant`): the claim under test is that nothing but the
+structure matters.  `value_items` states in Python what such a value stands for (rejection rule, "what was
+given is stored" rule), `on: ext` operations edit another torrent's object after it was given as a value.
+
 `reverse()` (/repo 3d3793a) is an operation of the alphabet on all four kinds of list; with `pop`, `remove`,
 `+=`, `append`, `extend` every mutating MutableSequence mixin method is covered.  `reverse_expected` states
 C16_reverse / C16_tiers_reverse on the real code (no error; a URL list reads back reversed; the tiers
@@ -35,11 +44,15 @@ import json
 import os
 
 from harness import common
+from harness.impl import urlvalues
 
 RULE = ('histories = start state + operations on trackers / a tier / webseeds / httpseeds, each through a fresh getter '
         'call or on a list object obtained once and held (get) '
         '(set, append, insert, extend, +=, delete, slice delete, clear, remove, pop, replace, reverse, index '
-        'and slice assignment — plain and extended slices, the list assigned to itself) over the URL alphabet {a, b, c, d, "http://a b", "http://a+b", invalid, '
+        'and slice assignment — plain and extended slices, the list assigned to itself), every value of any Python type / origin '
+        '(plain list / str, tuple, generator, iterator, set, dict, dict view, deque, str subclass, URL object, URLs / Trackers object '
+        'detached, of another torrent or of this torrent (other tier, webseeds, httpseeds, the Trackers object; held or fresh), '
+        'obj + [...], obj[a:b], nested deeper) over the URL alphabet {a, b, c, d, "http://a b", "http://a+b", invalid, '
         'blank, leading-space (valid as given, invalid as stored)}: exhaustive short histories + an exhaustive grid of index / slice assignments on lists of 0–3 URLs and on tiers + random histories up to 8 operations '
         'from the empty torrent and from non-trivial start states; every prefix is one evaluation; '
         'non-trivial = the prefix changed at least one metainfo field at least twice or ended in an '
@@ -47,6 +60,7 @@ RULE = ('histories = start state + operations on trackers / a tier / webseeds / 
 
 A, B, C = 'http://a/1', 'http://b/2', 'udp://c:80/3'
 D = 'http://d/4'
+E = 'http://e/5'
 SP, PL = 'http://a b', 'http://a+b'          # duplicates of each other after coercion
 BAD = 'foo'                                  # invalid (no scheme / netloc)
 BAD2 = 'http://h:99999/'                     # invalid (port)
@@ -77,9 +91,15 @@ FIELDS = ('announce', 'announce-list', 'url-list', 'httpseeds')
 # ----------------------------------------------------------------------------------------------
 
 def _pyval(v):
-    if isinstance(v, dict):       # {"other": 1}: neither None, str nor iterable
+    if isinstance(v, dict) and v == {'other': 1}:       # {"other": 1}: neither None, str nor iterable
         return 5
     return v
+
+
+def _val(x):
+    """a JSON list is copied (operation dicts are shared between histories); a typed value — tuple,
+    generator, URLs object … — is handed over as it is"""
+    return list(x) if type(x) is list else x
 
 
 def _apply_u(lst, op):
@@ -89,7 +109,7 @@ def _apply_u(lst, op):
     elif n == 'append':
         lst.append(op['u'])
     elif n == 'extend':
-        lst.extend(list(op['us']))
+        lst.extend(_val(op['us']))
     elif n == 'delete':
         del lst[op['i']]
     elif n == 'delslice':
@@ -101,12 +121,12 @@ def _apply_u(lst, op):
     elif n == 'pop':
         lst.pop() if op['i'] is None else lst.pop(op['i'])
     elif n == 'replace':
-        lst.replace(lst if op.get('self') else list(op['us']))
+        lst.replace(lst if op.get('self') else _val(op['us']))
     elif n == 'setitem':
         lst[op['i']] = op['u']
     elif n == 'setslice':
         # `lst[a:b:st] = us`; 'self': the list object itself is the value (`lst[:] = lst`)
-        lst[slice(op['a'], op['b'], op.get('st'))] = lst if op.get('self') else list(op['us'])
+        lst[slice(op['a'], op['b'], op.get('st'))] = lst if op.get('self') else _val(op['us'])
     elif n == 'reverse':
         lst.reverse()
     else:
@@ -121,7 +141,7 @@ def _apply_t(tr, op):
     elif n == 'append':
         tr.append(op['v'])
     elif n == 'extend':
-        tr.extend(list(op['vs']))
+        tr.extend(_val(op['vs']))
     elif n == 'delete':
         del tr[op['i']]
     elif n == 'delslice':
@@ -133,11 +153,11 @@ def _apply_t(tr, op):
     elif n == 'pop':
         tr.pop() if op['i'] is None else tr.pop(op['i'])
     elif n == 'replace':
-        tr.replace(tr if op.get('self') else list(op['vs']))
+        tr.replace(tr if op.get('self') else _val(op['vs']))
     elif n == 'setitem':
         tr[op['i']] = op['v']
     elif n == 'setslice':
-        tr[op['a']:op['b']] = list(op['vs'])
+        tr[op['a']:op['b']] = _val(op['vs'])
     elif n == 'reverse':
         tr.reverse()
     else:
@@ -145,7 +165,7 @@ def _apply_t(tr, op):
 
 
 def new_held():
-    return {'ws': None, 'hs': None, 'tr': None, 'tiers': {}}
+    return {'ws': None, 'hs': None, 'tr': None, 'tiers': {}, 'ext': {}}
 
 
 def _attached(H, k):
@@ -193,6 +213,10 @@ def plan_op(H, op):
     on, n = op['on'], op['op']
     if n == 'get':
         return ('get-tier' if on == 'tier' and H['tr'] is not None else 'get'), None
+    if on == 'ext':
+        # an edit of a list object of ANOTHER torrent that was given to this one as a value earlier
+        # (`'keep'`): this torrent and its list objects must not notice (no aliasing)
+        return ('ext' if op.get('k') in H.get('ext', {}) else 'skip'), None
     if on == 'tier' and 'k' in op:
         i = _attached(H, op['k'])
         if i is None:
@@ -217,7 +241,15 @@ def apply_op(t, op, H=None):
     if H is None:
         H = new_held()
     on, n = op['on'], op['op']
-    if n == 'get':
+    if on == 'ext':
+        o = H['ext'][op['k']]
+        if 'ti' in op:
+            o = o[op['ti']]
+        if n == 'iadd':
+            o += _val(op['us'])
+        else:
+            _apply_u(o, op)
+    elif n == 'get':
         if on == 'ws':
             H['ws'] = t.webseeds
         elif on == 'hs':
@@ -242,27 +274,27 @@ def apply_op(t, op, H=None):
         elif H[on] is not None:
             h = H[on]
             if n == 'iadd':
-                h += list(op['us'])
+                h += _val(op['us'])
             else:
                 _apply_u(h, op)
         elif n == 'iadd':
             if on == 'ws':
-                t.webseeds += list(op['us'])
+                t.webseeds += _val(op['us'])
             else:
-                t.httpseeds += list(op['us'])
+                t.httpseeds += _val(op['us'])
         else:
             _apply_u(getattr(t, attr), op)
     elif on == 'tier':
         if 'k' in op:
             tier = H['tiers'][op['k']]
             if n == 'iadd':
-                tier += list(op['us'])
+                tier += _val(op['us'])
             else:
                 _apply_u(tier, op)
         else:
             tr = H['tr'] if H['tr'] is not None else t.trackers
             if n == 'iadd':
-                tr[op['ti']] += list(op['us'])
+                tr[op['ti']] += _val(op['us'])
             else:
                 _apply_u(tr[op['ti']], op)
     elif on == 'tr':
@@ -275,11 +307,11 @@ def apply_op(t, op, H=None):
         elif H['tr'] is not None:
             h = H['tr']
             if n == 'iadd':
-                h += list(op['vs'])
+                h += _val(op['vs'])
             else:
                 _apply_t(h, op)
         elif n == 'iadd':
-            t.trackers += list(op['vs'])
+            t.trackers += _val(op['vs'])
         else:
             _apply_t(t.trackers, op)
     else:
@@ -336,7 +368,7 @@ def strings_of(case):
                 walk(y)
         elif isinstance(x, dict):
             for k, y in x.items():
-                if k not in ('on', 'op'):
+                if k not in ('on', 'op', '$', 'keep'):
                     walk(y)
     walk(case.get('init'))
     walk(case['ops'])
@@ -357,10 +389,16 @@ def run_history(torf, case):
     steps = []
     H = new_held()
     for op in case['ops']:
-        via, mop = plan_op(H, resolve_self(t, H, op) if op.get('self') else op)
+        pyop, rop = op, op
+        if op.get('self'):
+            rop = resolve_self(t, H, op)
+        elif urlvalues.has_spec(op):
+            # typed values: the real code gets the Python objects, the model their structure
+            pyop, rop = urlvalues.resolve_op(torf, t, H, op)
+        via, mop = plan_op(H, rop)
         try:
             if via != 'skip':
-                apply_op(t, op, H)
+                apply_op(t, pyop, H)
             out = 'skip' if via == 'skip' else 'ok'
         except torf.URLError:
             out = 'url'
@@ -378,7 +416,11 @@ def run_history(torf, case):
         except Exception as e:  # noqa  (a held object that cannot even be iterated)
             held = {'error': type(e).__name__}
         steps.append({'mi': mi, 'rb': rb, 'out': out, 'rbexc': exc, 'held': held, 'via': via, 'mop': mop})
-    table = [[s, bool(_utils.is_url(s))] for s in strings_of(case)]
+    strs = set(strings_of(case))
+    for st in steps:                     # strings that only appear in resolved values (chars of a str that was iterated)
+        if st['mop'] is not None:
+            strs.update(strings_of({'ops': [st['mop']]}))
+    table = [[s, bool(_utils.is_url(s))] for s in sorted(strs)]
     return steps, table
 
 
@@ -460,30 +502,58 @@ def held_reasons(mi, rb, held):
     return why
 
 
-def stored_urls(op):
-    """URLs the operation tries to store (a blank string given as a TIER is the empty tier)."""
+def value_items(op):
+    """Independent Python statement of what an operation tries to store, for values of any structure
+    (str = one string, list = anything that is iterated; counterpart of Torf.Lists.lowerOp):
+    (list of URL strings it tries to store, error kind that is due BEFORE anything is stored or None,
+    prefix flag: the strings are stored one by one, so those before a bad item stay).
+    Where ONE URL is expected (append / insert / lst[i] = … / the items of extend, +=, replace, slice
+    assignment on a URL list) nothing is flattened: a non-string there is the URL error.  Where a TIER
+    or a whole seed list is built (URLs.__init__) a string is one URL (a blank string given as a TIER
+    is the empty tier) and everything else is flattened to any depth.  A str given where several
+    values are expected is iterated character by character; `replace(<str>)` is the ValueError."""
     n, on = op['op'], op['on']
-    if n in ('delete', 'delslice', 'clear', 'remove', 'pop', 'reverse'):
-        return []
+    if n in ('delete', 'delslice', 'clear', 'remove', 'pop', 'reverse', 'get'):
+        return [], None
+    flat = urlvalues.flat
+    def it(x):
+        return list(x) if isinstance(x, str) else x
     if on in ('ws', 'hs', 'tier'):
         if n == 'set':
             v = op['v']
-            return [v] if isinstance(v, str) else list(v) if isinstance(v, list) else []
-        return [op['u']] if 'u' in op else list(op['us'])
+            return ([v] if isinstance(v, str) else flat(v) if isinstance(v, list) else []), None
+        if 'u' in op:
+            return ([op['u']], None) if isinstance(op['u'], str) else ([], 'url')
+        us = op['us']
+        if n == 'replace' and isinstance(us, str):
+            return [], 'value'
+        out = []
+        for x in it(us):
+            if not isinstance(x, str):
+                return out, 'url'
+            out.append(x)
+        return out, None
     def tier_urls(v, as_tier=True):
         if isinstance(v, str):
             return [] if (as_tier and not v.strip()) else [v]
-        return list(v)
+        return flat(v)
     if n == 'set':
         v = op['v']
         if isinstance(v, str):
-            return [v]
-        return [u for x in v for u in tier_urls(x)] if isinstance(v, list) else []
+            return [v], None
+        return ([u for x in v for u in tier_urls(x)] if isinstance(v, list) else []), None
     if n == 'setslice':
-        return [u for x in op['vs'] for u in tier_urls(x, as_tier=False)]
+        return tier_urls(op['vs'], as_tier=False), None
     if 'v' in op:
-        return tier_urls(op['v'])
-    return [u for x in op['vs'] for u in tier_urls(x)]
+        return tier_urls(op['v']), None
+    if n == 'replace' and isinstance(op['vs'], str):
+        return [], 'value'
+    return [u for x in it(op['vs']) for u in tier_urls(x)], None
+
+
+def stored_urls(op):
+    """URLs the operation tries to store (a blank string given as a TIER is the empty tier)."""
+    return value_items(op)[0]
 
 
 def acceptable(u, is_url):
@@ -493,18 +563,39 @@ def acceptable(u, is_url):
 
 
 def reject_expected(op, before_rb, is_url):
-    """True iff the property demands the URL error for this operation (it tries to store a URL that
-    is invalid as given or as it would be stored, and — for an operation on a tier — that tier
-    exists)."""
-    if all(acceptable(u, is_url) for u in stored_urls(op)):
-        return False
+    """The error kind the property demands for this operation, or None: 'url' if it tries to store a
+    URL that is invalid as given or as it would be stored, or something that is not a string where one
+    URL is expected; 'value' for replace(<str>) — and, for an operation on a tier, that tier exists."""
+    urls, err = value_items(op)
+    want = 'url' if not all(acceptable(u, is_url) for u in urls) else err
+    if want is None:
+        return None
     if op['on'] == 'tier':
         if before_rb is None:
-            return False
+            return None
         n = len(before_rb['tr'])
         if not (-n <= op['ti'] < n):
-            return False
-    return True
+            return None
+    return want
+
+
+def not_stored(mop, rb, is_url):
+    """An edit is a list edit: after an operation that RETURNED NORMALLY every acceptable URL it was
+    given is in the list it was given to (as its coerced string; for the trackers: in some tier — the
+    de-duplication may keep it where it already was).  Returns the URLs that are missing.  (Values that
+    silently vanish — e.g. a one-shot iterator that was consumed by a validation pass before it was
+    used — keep everything in sync, so only this rule gives a failing input for them.)"""
+    if rb is None or _affected(mop) or (mop['on'] == 'tr' and mop['op'] == 'setitem'):
+        # (`tr[i] = v` is exempt: the new tier is de-duplicated against ALL current URLs, those of the
+        #  tier it replaces included, so `tr = [[c]]; tr[0] = [a, c]` leaves [[a]] — documented behaviour
+        #  of Trackers.__setitem__, C16_tiers_setitem_stored_noop, notes/C16.md)
+        return []
+    urls, err = value_items(mop)
+    if err:
+        return []
+    g = _group(mop)
+    have = {u for tier in rb['tr'] for u in tier} if g == 'tr' else set(rb[g])
+    return [u for u in urls if acceptable(u, is_url) and u.replace(' ', '+') not in have]
 
 
 def reverse_expected(mop, before_rb):
@@ -718,6 +809,13 @@ def rnd_uop(rng, on, allow_set=True, **kw):
 
 
 def rnd_op(rng, allow_set=True):
+    op = _rnd_op(rng, allow_set)
+    if rng.random() < 0.25 and not op.get('self'):
+        op = rnd_wrap(rng, op)                # the value gets a random type / origin
+    return op
+
+
+def _rnd_op(rng, allow_set=True):
     on = rng.choice(['tr', 'tr', 'tr', 'tier', 'tier', 'ws', 'ws', 'hs'])
     if on in ('ws', 'hs'):
         if rng.random() < 0.2:
@@ -945,6 +1043,205 @@ def gen_reverse_family(ctx):
     return cases
 
 
+# ---- typed values: the TYPE / ORIGIN of a value as a dimension of every operation (round 3) ------
+
+def K(kind, x=None, **kw):
+    """value spec, see harness/impl/urlvalues.py"""
+    d = {'$': kind}
+    if x is not None:
+        d['x'] = x
+    d.update(kw)
+    return d
+
+
+def container_kinds(p, thorough=True):
+    """the list `p` (of strings, or of tier values) as every kind of iterable"""
+    ks = [K('tuple', p), K('gen', p), K('iter', p), K('set', p), K('dict', p), K('dictkeys', p)]
+    if thorough:
+        ks += [K('frozenset', p), K('dictvalues', p), K('deque', p), K('list', p)]
+    return ks
+
+
+def url_list_values(thorough):
+    """values for a slot that takes SEVERAL URLs of one list (extend, +=, replace, slice assignment on a URL
+    list; also a seed attribute and ONE TIER of the tiers container): iterables of every type whose
+    items are strings / URL objects / str subclasses, list objects of this and of another torrent that
+    overlap the stored URLs partly, fully or not at all, derived objects, empty ones"""
+    vals = []
+    for p in ([D, A], [C, D, D], [SP, PL, D], []):
+        vals += container_kinds(p, thorough)
+        vals += [K('urls', p), K('other_ws', p, keep='o')]
+    vals += [[K('urlobj', D), K('strsub', A), K('urlobj', SP)], K('tuple', [K('strsub', D), K('urlobj', C)]),
+             K('ws'), K('hs'), K('tier', ti=0), K('tier', ti=1), K('tierk', k=0),
+             K('add', base=K('tier', ti=0), x=[D]), K('add', base=K('ws'), x=[D, A]), K('add', base=K('hs'), x=K('tuple', [E, C])),
+             K('add', base=K('tierk', k=0), x=K('tier', ti=1)),
+             K('slice', base=K('tier', ti=0)), K('slice', base=K('ws'), a=1), K('copy', base=K('hs')),
+             K('other_tier', [[A, D], [E]], ti=0, keep='o'), K('other_tier', [[E], [C, D]], ti=1, keep='o'),
+             K('other_hs', [D, E], keep='o')]
+    return vals
+
+
+def nested_values():
+    """nested deeper than a list of strings: flattened where a tier / a seed list is built
+    (URLs.__init__), the URL error where one URL per item is expected"""
+    return [[[D]], [D, [E]], [[A, [D]], [[E]]], K('tuple', [K('gen', [D, A]), K('iter', [E])]), [[]], K('gen', [K('tuple', [])]),
+            K('tr'), K('other_tr', [[A, D], [E]], keep='o'), K('trackers', [[D], [E, C]]), [K('ws'), K('tier', ti=1)],
+            K('slice', base=K('tr')), K('add', base=K('tr'), x=[[D], [E]])]
+
+
+def tiers_values(thorough):
+    """values for a slot that takes SEVERAL TIERS (tr.extend, tr +=, tr.replace, torrent.trackers = …)"""
+    vals = []
+    for p in ([[A, D], [E]], [[D], [D, C]], [D, [E, A], ''], []):
+        vals += container_kinds(p, thorough)
+    vals += [K('gen', [K('gen', [A, D]), K('iter', [E]), K('strsub', C)]),
+             [K('ws'), K('add', base=K('tier', ti=0), x=[D])], [K('other_tier', [[A, D]], ti=0, keep='o'), K('hs'), K('urlobj', E)],
+             K('tuple', [K('tier', ti=1), K('tier', ti=0), K('tierk', k=0)]),
+             K('tr'), K('other_tr', [[A, D], [C, E]], keep='o'), K('other_tr', [[D], [E]], keep='o'), K('trackers', [[D, A], [E]]),
+             K('ws'), K('hs'), K('tier', ti=0), K('add', base=K('tr'), x=[[D], [E]]), K('add', base=K('ws'), x=[D]),
+             K('slice', base=K('tr')), K('slice', base=K('tr'), a=1), K('copy', base=K('tr')),
+             [[[D], [A]], [[[E]]]], K('dict', [K('tuple', [D, A]), E])]
+    return vals
+
+
+def single_url_values():
+    """values for a slot that takes ONE URL (append, insert, lst[i] = … on a URL list): str-like objects,
+    and things that are not strings (the URL error: nothing is flattened there)"""
+    return [K('strsub', D), K('urlobj', D), K('urlobj', SP), K('strsub', BAD), K('strsub', A), K('urlobj', C),
+            [D], K('tuple', [D]), K('gen', [D]), K('tier', ti=1), K('ws'), [], K('other_ws', [D], keep='o')]
+
+
+VALUE_FOLLOW_UPS = [None, _u('ws', 'append', u=E), _u('tier', 'append', k=0, u=E), _u('tier', 'append', ti=-1, u=E),
+                    dict(on='ext', k='o', op='append', u=E), dict(on='ext', k='o', op='clear'), _u('hs', 'pop', i=None)]
+
+
+def _refs(x, out=None):
+    """which live objects a value spec refers to"""
+    out = set() if out is None else out
+    if isinstance(x, list):
+        for y in x:
+            _refs(y, out)
+    elif isinstance(x, dict):
+        if x.get('$') in ('ws', 'hs', 'tr', 'tier', 'tierk'):
+            out.add(x['$'])
+        if 'keep' in x:
+            out.add('ext:' + x['$'])
+        for k in ('x', 'base'):
+            if k in x:
+                _refs(x[k], out)
+    return out
+
+
+def value_follow_ups(op):
+    """edits that matter after an operation with a typed value: through every OTHER handle of an object
+    the value was (or was derived from) — aliasing —, and, after an operation on the tiers container,
+    through the tiers it now has (do they carry this container's hooks?)"""
+    refs = set()
+    for sl in urlvalues.SLOTS:
+        if sl in op:
+            _refs(op[sl], refs)
+    fus = [None]
+    if op['on'] == 'tr':
+        fus += [_u('tier', 'append', ti=-1, u=E), _u('tier', 'clear', ti=0)]
+    elif op['on'] == 'tier':
+        fus += [_u('tier', 'append', u=E, **({'k': op['k']} if 'k' in op else {'ti': op['ti']}))]
+    else:
+        fus += [_u(op['on'], 'append', u=E)]
+    if 'ws' in refs and op['on'] != 'ws':
+        fus += [_u('ws', 'append', u=E)]
+    if 'hs' in refs and op['on'] != 'hs':
+        fus += [_u('hs', 'insert', i=0, u=E)]
+    if refs & {'tier', 'tierk', 'tr'} and op['on'] != 'tier':
+        fus += [_u('tier', 'append', k=0, u=E), _u('tier', 'pop', ti=1, i=None)]
+    for r in refs:
+        if r.startswith('ext:'):
+            fus += [dict(on='ext', k='o', op='append', u=E)] if r in ('ext:other_ws', 'ext:other_hs', 'ext:other_tier') else \
+                   [dict(on='ext', k='o', ti=0, op='append', u=E)]
+    return fus
+
+
+def gen_value_types(ctx):
+    """every operation that takes URLs or tiers x every type / origin of its value, from the state
+    tiers [[a, b], [c]], webseeds [a, b], httpseeds [c], through fresh getters and with every list object
+    held (so that a value that IS a held object can be edited afterwards through its other handle:
+    aliasing), each alone and followed by an edit through another handle"""
+    th = ctx.thorough
+    ops = []
+    ul, nv, tv, sv = url_list_values(th), nested_values(), tiers_values(th), single_url_values()
+    for v in ul + nv + sv[:6]:                                      # ONE TIER of the container
+        ops += [_u('tr', 'append', v=v), _u('tr', 'insert', i=0, v=v), _u('tr', 'setitem', i=1, v=v)]
+        if th:
+            ops += [_u('tr', 'insert', i=1, v=v), _u('tr', 'setitem', i=0, v=v), _u('tr', 'setitem', i=-1, v=v)]
+        ops += [_u('ws', 'set', v=v)] + ([_u('hs', 'set', v=v)] if th else [])          # a seed attribute
+    for v in tv:                                                     # SEVERAL TIERS
+        ops += [_u('tr', 'extend', vs=v), _u('tr', 'iadd', vs=v), _u('tr', 'replace', vs=v), _u('tr', 'set', v=v)]
+    for v in [D, K('strsub', D), K('urlobj', D)]:                    # a str where several tiers are expected
+        ops += [_u('tr', 'extend', vs=v), _u('tr', 'replace', vs=v), _u('tr', 'set', v=v)]
+    targets = [('ws', {}), ('tier', {'ti': 1}), ('tier', {'k': 0})] + ([('hs', {}), ('tier', {'ti': 0})] if th else [])
+    for on, kw in targets:                                           # in-place operations on a URL list
+        for v in ul + nv[:7] + [D, K('strsub', D)]:
+            ops += [_u(on, 'extend', us=v, **kw), _u(on, 'iadd', us=v, **kw), _u(on, 'replace', us=v, **kw),
+                    _u(on, 'setslice', a=0, b=1, us=v, **kw), _u(on, 'setslice', a=None, b=None, st=-1, us=v, **kw)]
+            if th:
+                ops += [_u(on, 'setslice', a=None, b=None, us=v, **kw), _u(on, 'setslice', a=1, b=1, us=v, **kw)]
+        for v in sv:
+            ops += [_u(on, 'append', u=v, **kw), _u(on, 'insert', i=0, u=v, **kw), _u(on, 'setitem', i=0, u=v, **kw)]
+    held_pre = [_get('ws'), _get('hs'), _get('tr'), _get('tier', ti=0, k=0)]
+    cases = []
+    for i, op in enumerate(ops):
+        for pre in ([], held_pre):
+            if not pre and op.get('k') is not None:
+                continue
+            fus = value_follow_ups(op)
+            if th:
+                fus = fus + [f for f in VALUE_FOLLOW_UPS if f not in fus]
+            for f in fus:
+                cases.append({'start': 'full', 'ops': pre + [op] + ([f] if f else []), 'kind': 'value-types'})
+    return cases
+
+
+def rnd_wrap(rng, op):
+    """give the value of a random operation a random type / origin"""
+    n, on = op['op'], op['on']
+    def wrap_list(p):
+        r = rng.random()
+        if r < 0.55:
+            return K(rng.choice(['tuple', 'gen', 'iter', 'set', 'dict', 'dictkeys', 'frozenset', 'deque', 'urls', 'other_ws']), p,
+                     **({'keep': 'o'} if r < 0.1 else {}))
+        if r < 0.7:
+            return [rng.choice([lambda u: K('urlobj', u), lambda u: K('strsub', u), lambda u: u])(u) if isinstance(u, str) else u for u in p]
+        base = rng.choice([K('ws'), K('hs'), K('tier', ti=rng.choice([0, 1, -1])), K('tierk', k=0), K('tr'),
+                           K('other_tier', [p or [D], [E]], ti=0, keep='o')])
+        r = rng.random()
+        return base if r < 0.4 else K('add', base=base, x=p) if r < 0.8 else K('slice', base=base)
+    op = dict(op)
+    if n == 'remove':                          # the argument of remove() is compared, not stored
+        return op
+    if 'us' in op and isinstance(op['us'], list):
+        op['us'] = wrap_list(op['us']) if rng.random() < 0.85 else [op['us']]
+    elif 'vs' in op and isinstance(op['vs'], list):
+        r = rng.random()
+        if r < 0.5:
+            op['vs'] = K(rng.choice(['tuple', 'gen', 'iter', 'dict']), [wrap_list(x) if isinstance(x, list) and rng.random() < 0.5 else
+                                                                       K('tuple', x) if isinstance(x, list) else x for x in op['vs']])
+        elif r < 0.8:
+            op['vs'] = [wrap_list(x) if isinstance(x, list) else x for x in op['vs']]
+        else:
+            op['vs'] = rng.choice([K('tr'), K('other_tr', op['vs'] or [[D]], keep='o'), K('add', base=K('tr'), x=op['vs']), K('ws'),
+                                   K('slice', base=K('tr'))])
+    elif 'v' in op and isinstance(op['v'], list):
+        if on == 'tr' and n == 'set':
+            op['v'] = K(rng.choice(['tuple', 'gen', 'dict']), [K('tuple', x) if isinstance(x, list) else x for x in op['v']]) \
+                if rng.random() < 0.6 else [wrap_list(x) if isinstance(x, list) else x for x in op['v']]
+        else:
+            op['v'] = wrap_list(op['v']) if rng.random() < 0.8 else [[op['v']]]
+    elif 'u' in op and isinstance(op['u'], str) and n != 'remove':
+        op['u'] = rng.choice([K('urlobj', op['u']), K('strsub', op['u']), K('strsub', op['u']), [op['u']]])
+    elif 'v' in op and isinstance(op['v'], str):
+        op['v'] = rng.choice([K('urlobj', op['v']), K('strsub', op['v'])])
+    return op
+
+
 def rnd_held_history(rng, allow_set):
     """random history in which every list is edited through at most one object at a time: after a
     `get` all operations on that list go to the held object until the list is assigned or obtained
@@ -986,7 +1283,7 @@ def rnd_held_history(rng, allow_set):
 
 def gen_held_cases(ctx, scale=1.0):
     rng = ctx.rng
-    cases = gen_held_exhaustive(ctx) + gen_assign_grid(ctx) + gen_reverse_family(ctx)
+    cases = gen_value_types(ctx) + gen_held_exhaustive(ctx) + gen_assign_grid(ctx) + gen_reverse_family(ctx)
     for _ in range(int(ctx.n(2500, 120000) * scale)):
         cases.append({'start': rng.choice(['empty', 'full', 'full', 'single']),
                       'ops': rnd_held_history(rng, allow_set=False), 'kind': 'held-rnd-clean'})
@@ -1008,7 +1305,7 @@ def gen_cases(ctx, scale=1.0):
     for start in ('empty', 'full'):
         for h in itertools.product(full, repeat=2):
             cases.append({'start': start, 'ops': list(h), 'kind': 'exh2'})
-    first2 = small if ctx.thorough else small[::2]
+    first2 = small if ctx.thorough else small[::3]      # (quick: every third one since round 3, to stay inside the time budget)
     for a, b in itertools.product(first2, repeat=2):
         for c in full:
             cases.append({'start': 'empty', 'ops': [a, b, c], 'kind': 'exh3'})
@@ -1030,7 +1327,9 @@ def gen_cases(ctx, scale=1.0):
         + ('; plus (thorough) the same from the single-URL start state and all 3-operation histories whose '
            'first operation is one of every third state-building operation' if ctx.thorough else '')
         + '; assignment grid: every index -4..3 x 7 URLs and every slice of a bound x bound x step grid x 8 value shapes on '
-          'lists of 0-3 URLs, on both tiers of [[a, b], [c]] and on held objects')
+          'lists of 0-3 URLs, on both tiers of [[a, b], [c]] and on held objects; value types: every operation that takes '
+          'URLs or tiers x every type / origin of its value (harness/props/c16.py gen_value_types) from the full state, fresh and '
+          'with every list object held, alone and followed by an edit through every other handle of the value')
     # 2. random histories, up to 8 operations, without slice assignment on the tiers (theorem fragment;
     #    index / slice assignment on URL lists — plain, extended, self — is part of it)
     for _ in range(int(ctx.n(6000, 200000) * scale)):
@@ -1178,10 +1477,13 @@ def _classify(ctx, c, steps, is_url, r):
             return 'violation'
         if m is None:
             # obtaining a list object / a skipped stale tier handle: nothing may change
-            want_out = ('skip',) if via == 'skip' else ('ok', 'index') if op['on'] == 'tier' else ('ok',)
+            want_out = ('skip',) if via == 'skip' else ('ok', 'url', 'index', 'value') if via == 'ext' else \
+                       ('ok', 'index') if op['on'] == 'tier' else ('ok',)
             if s['mi'] != before_mi or (k > 0 and s['rb'] != steps[k - 1]['rb']) or s['out'] not in want_out:
                 obs.update(kind='get', before=before_mi)
-                ctx.violation(f'operation {k} (obtaining torrent.{op["on"]}) changed the metainfo or failed: outcome {s["out"]}',
+                ctx.violation(f'operation {k} (' + ('an edit of a list object of ANOTHER torrent that was given to this one as a value'
+                                                   if via == 'ext' else f'obtaining torrent.{op["on"]}')
+                              + f') changed the metainfo or failed: outcome {s["out"]}',
                               case, {'mi': before_mi, 'rb': steps[k - 1]['rb'] if k else None, 'out': want_out}, obs,
                               finding_matchers=MATCHERS)
                 return 'violation'
@@ -1196,15 +1498,30 @@ def _classify(ctx, c, steps, is_url, r):
                               case, {'out': list(outs), 'rb': want, 'model_mi': m['mi'], 'model_out': m['out']}, obs,
                               finding_matchers=MATCHERS)
                 return 'violation'
-        if not legacy and reject_expected(mop, before_rb, is_url):
+        want_err = None if legacy else reject_expected(mop, before_rb, is_url)
+        if want_err:
             atomic = mop['op'] not in ('extend', 'iadd')
-            if s['out'] != 'url' or (atomic and s['mi'] != before_mi):
-                obs.update(kind='reject', before=before_mi)
-                ctx.violation(f'operation {k} ({op["on"]}.{op["op"]}) with an invalid URL: outcome {s["out"]}'
-                              + ('' if s['mi'] == before_mi else ', metainfo changed'),
-                              case, {'out': 'url', 'mi': before_mi if atomic else 'invalid URL not stored'}, obs,
+            if s['out'] != want_err or (atomic and s['mi'] != before_mi):
+                obs.update(kind='reject', before=before_mi, value=mop)
+                ctx.violation(f'operation {k} ({op["on"]}.{op["op"]}) with '
+                              + ('an invalid URL (or something that is not a string where one URL is expected)'
+                                 if want_err == 'url' else 'a str where an iterable of URLs is expected')
+                              + f': outcome {s["out"]}' + ('' if s['mi'] == before_mi else ', metainfo changed'),
+                              case, {'out': want_err, 'mi': before_mi if atomic else 'invalid URL not stored'}, obs,
                               finding_matchers=MATCHERS)
                 return 'violation'
+        if s['out'] == 'ok' and not legacy:
+            missing = not_stored(mop, s['rb'], is_url)
+            if missing:
+                obs.update(kind='not-stored', before=before_mi, value=mop, missing=missing)
+                ctx.violation(f'operation {k} ({op["on"]}.{op["op"]}) returned normally but {missing} given to it '
+                              f'{"is" if len(missing) == 1 else "are"} not in the list afterwards',
+                              case, {'stored': missing, 'model_mi': m['mi'], 'model_out': m['out']}, obs, finding_matchers=MATCHERS)
+                return 'violation'
+            if hyp and m['out'] == 'ok' and m['rb'] is not None and not_stored(mop, m['rb'], is_url):
+                ctx.machinery_error('the model returns ok but does not store a URL it was given',
+                                    {'case': case, 'step': k, 'model': m, 'value': mop})
+                return None
         # --- correspondence and sanity under the hypothesis ------------------------------
         same = (s['mi'] == m['mi'] and s['rb'] == m['rb'] and s['out'] == m['out'])
         if hyp or (legacy and m['hyp'] is False and _clean_prefix(c['ops'], k)):
@@ -1270,10 +1587,12 @@ def run(ctx, drv):
         'for a held Trackers object under the modelling claim that the object holds what its last callback call saw; the order of '
         'effects inside replace/append/clear is modelled separately, C16_held_sync); two objects of one list edited alternately '
         'are not modelled',
-        'values are None / str / list of str / list of (str | list of str) / a non-iterable / the list object itself '
-        '(lst[:] = lst, t.webseeds = t.webseeds); deeper nesting, extended slices in DELETIONS and on the tiers container, '
-        'assigning a list to an integer index of a URL list, a string / non-iterable to a slice or to replace(), and '
-        'reverse()/sort() are not modelled',
+        'values: None / a non-iterable (setters only) / a str or anything that is iterated, nested to any depth, of any type '
+        'and origin (round 3: the model is given the STRUCTURE of a value — str | items in iteration order — and '
+        'C16_value_type_irrelevant says nothing else matters; sets / dicts are taken in the iteration order of the object; '
+        'one-shot iterators are built by the harness with a known structure); not modelled: values that are neither str nor '
+        'iterable INSIDE a value (ints, None), bytes, extended slices in DELETIONS and on the tiers container, sort(), editing an '
+        'object DERIVED from a list (the result of lst + [...] shares the callback of lst: a second object of the same list)',
         'the metainfo fields only hold what the API itself writes (plus two legacy start states that are '
         'compared model-vs-code only)',
         'blank tier strings: str.strip() agrees with the model on the generated strings (checked per case)',
@@ -1284,8 +1603,9 @@ def run(ctx, drv):
     if corpus:
         evaluate(ctx, drv, corpus)
     cases = gen_cases(ctx)
-    held = [c for c in cases if c['kind'].startswith('held')]
-    _evaluate_batched(ctx, drv, held + [c for c in cases if not c['kind'].startswith('held')])
+    # run order: corpus, the exhaustive value-type family, held-object histories, everything else
+    rank = lambda c: 0 if c['kind'] == 'value-types' else 1 if c['kind'].startswith('held') else 2   # noqa
+    _evaluate_batched(ctx, drv, sorted(cases, key=rank))
     ctx.exhaustive = False
 
 
